@@ -544,7 +544,7 @@ func (p *vc09ProfModel) applies(ip netip.Addr) bool {
 func TestVerifC09MwReal(t *testing.T) {
 	st := vstat.New("C09", "ratelimitmw.real",
 		"rapid histories of queries (client address, qtype, profile {none, own limit with/without client subnets, GlobalRatelimiter}, handler response size) through ratelimitmw.Middleware with a real ratelimit.Backoff (1 h intervals) and real agd.DefaultRatelimiter profiles (1 s window; a case that takes longer than 0.8 s of real time is discarded unjudged); oracle = per-subnet counter model for the global limit, per-profile counter model for own limits, on what the client observes; non-trivial = a query got no response and a later one did, distinct by (config, history)",
-		"silence-then-later-response", "global-dropped", "profile-dropped", "profile-limit-while-global-would-drop", "profile-outside-client-subnets-uses-global", "profile-large-response-counted", "global-large-response-counted", "request-weighs-more-than-response", "response-exactly-estimate", "profile-near-miss-outside-client-subnets", "allowlisted-pass", "any-refused")
+		"silence-then-later-response", "global-dropped", "profile-dropped", "profile-limit-while-global-would-drop", "profile-outside-client-subnets-uses-global", "profile-large-response-counted", "global-large-response-counted", "request-weighs-more-than-response", "response-exactly-estimate", "profile-near-miss-outside-client-subnets", "client-ipv4-mapped", "allowlisted-pass", "any-refused")
 	st.Finish(t)
 
 	msgs := agdtest.NewConstructor(t)
@@ -626,7 +626,14 @@ func TestVerifC09MwReal(t *testing.T) {
 			e := int(c.Est)
 			next := &vc09Next{respSize: rapid.SampledFrom([]int{0, 0, 0, e - 1, e, 2 * e, 3*e + 1}).Draw(t, "respSize")}
 			res = results[who]
-			rw := &vc09RW{local: &net.UDPAddr{IP: net.IP{127, 0, 0, 1}, Port: 53}, remote: vc09Remote(ip, 5353, rapid.IntRange(0, 3).Draw(t, "form"))}
+			form := rapid.IntRange(0, 3).Draw(t, "form")
+			rw := &vc09RW{local: &net.UDPAddr{IP: net.IP{127, 0, 0, 1}, Port: 53}, remote: vc09Remote(ip, 5353, form)}
+			if form&1 == 1 && ip.Is4() {
+				// ::ffff:a.b.c.d as a dual-stack socket reports it: unmapped by
+				// the middleware, the same IPv4 client as in plain form.
+				classes["client-ipv4-mapped"] = true
+			}
+
 			req := vc09Req(qt, rapid.SampledFrom([]int{0, 0, 0, e, 3 * e}).Draw(t, "reqPad"))
 			err := mw.Wrap(next).ServeDNS(context.Background(), rw, req)
 			lines = append(lines, fmt.Sprintf("%2d query %s qtype=%d reqlen=%d profile=%s handler-respsize=%d -> next.calls=%d responses=%d err=%v", i, ip, qt, req.Len(), who, next.respSize, next.calls, len(rw.written), err))
